@@ -705,6 +705,11 @@ def check_searches(prog, check, rule):
                                                       and isinstance(x.value, ast.Name) and x.value.id == s_) or
                        (isinstance(x, ast.AugAssign) and isinstance(x.target, ast.Name) and isinstance(x.op, ast.Add) and
                         isinstance(x.value, ast.Constant) and x.value.value == 1) or
+                       # a counter *set* (not incremented) under the criterion still marks a match - what the later test then reads
+                       # is the search's business
+                       (isinstance(x, ast.Assign) and len(x.targets) == 1 and isinstance(x.targets[0], ast.Name) and
+                        isinstance(x.value, ast.Constant) and isinstance(x.value.value, int) and not isinstance(x.value.value, bool)
+                        and x.value.value >= 1) or
                        (isinstance(x, ast.Expr) and isinstance(x.value, ast.Call) and call_name(x.value) == 'append' and
                         isinstance(x.value.func, ast.Attribute) and isinstance(x.value.func.value, ast.Name) and len(x.value.args) == 1 and
                         isinstance(x.value.args[0], ast.Name) and x.value.args[0].id == s_)]
